@@ -95,7 +95,10 @@ def check_case(data: dict, lab: Labels) -> None:
     subj_e = cands[data["subject"] % len(cands)]
     x = b.of(subj_e)
     all_live: list[Any] = list({id(n): n for n in T.live_nodes(b.root)}.values())
-    detached: set[int] = set()
+    detached: set[int] = {id(b.of(e)) for e in ex.done if e.det}
+    lab.tag_if(bool(detached), "tree-contains-detached-nodes")
+    if id(x) in detached:
+        lab.tag("subject-detached")
 
     def registered(n: Any) -> bool:
         return id(n) not in detached
@@ -115,6 +118,10 @@ def check_case(data: dict, lab: Labels) -> None:
         x.detach_self()
         detached.add(id(x))
         lab.tag("subject-detached")
+    if twins and data.get("subject_is_twin"):
+        # the subject is the later twin (its id carries a suffix while the base id may be free again)
+        x = twins[0]
+        lab.tag("subject-is-suffixed-twin")
     lab.tag_if(bool(twins), "twin-registered")
     has_tuple = any(i is not None for _, _, i in T.live_children(x))
     lab.tag_if(has_tuple, "tuple-child")
@@ -202,7 +209,10 @@ def check_case(data: dict, lab: Labels) -> None:
         if registered(m) and m is not n:
             require(ASTNode.get_any(m.id) is m, "replace-evicted-other-node", f"{type(m).__name__} {m.id}")
     if data["op"] == "replace":
-        if x_registered and set(applied) == {"noncompare"} and not twin_registered:
+        # the parenthetical "keeps the original's id" is a corollary of the rebuild rule and only
+        # follows when the original carries the un-suffixed digest (a suffixed id whose lower
+        # slots were freed in the meantime is legitimately not re-used; see DESIGN.md section 7)
+        if x_registered and set(applied) == {"noncompare"} and not twin_registered and "_" not in x.id:
             require(n.id == x.id, "replace-keeps-id", f"{n.id} vs original {x.id}")
             lab.tag("keeps-original-id")
         # metamorphic rebuild
@@ -214,7 +224,7 @@ def check_case(data: dict, lab: Labels) -> None:
 
 
 def st_case(ctx: Ctx):
-    g = T.TreeGen(leaves=ctx.pick(8, 12), origin_rate=0.3, extra_leaves=("Vals", "Vals", "Vals"))
+    g = T.TreeGen(leaves=ctx.pick(8, 12), origin_rate=0.3, extra_leaves=("Vals", "Vals", "Vals"), detach_rate=0.12)
     return st.fixed_dictionaries(
         {
             "tree": st.one_of(g.inner_tree(), g.inner_tree(), g.tree()),
@@ -222,6 +232,7 @@ def st_case(ctx: Ctx):
             "twins": st.sampled_from([0, 0, 1, 2]),
             "detach": st.sampled_from([False, False, True]),
             "detach_first": st.booleans(),
+            "subject_is_twin": st.sampled_from([False, False, True]),
             "op": st.sampled_from(["duplicate", "replace", "replace", "dc_replace"]),
             "c1": st.integers(0, 4),
             "c2": st.integers(0, 4),
